@@ -19,7 +19,8 @@ LEVEL = "model_checking"
 RULE = ("E1: every cell of incoming (type x code in {0.00, 0.01, 0.31, 2.05, 4.04, 5.00, 1.00, 6.00, 7.01} x token "
         "{pending, unknown} x source {peer, other port} x local address {unicast, ff02::fd, v4-mapped 224.0.1.187} x handler "
         "duration {0, D-e, D+e, 0.5 s} x No-Response {absent,0,2,8,16,26}) where the statement defines the reaction, all ordered "
-        "pairs of a sub-table, and outgoing multicast cells; states = distinct (cell, reply multiset) pairs")
+        "pairs of a sub-table, cells behind the node's own unacknowledged CON (answered on time, separate response released by its ACK), the peer's message carrying the node's own "
+        "just-acknowledged message ID, and outgoing multicast cells x tuning reliability preference; states = distinct (cell, reply multiset) pairs")
 ASSUMPTIONS = [
     "CON with reserved-class/signalling code: 'ignored' or RST both accepted (statement vs RFC 7252 4.2)",
     "ACK carrying a response for a pending token but a foreign message ID: delivery is a don't-care; nothing may be sent",
